@@ -1,5 +1,8 @@
 (* Extraction of the executable model. ExtrOcamlBasic only: bool, option, list, prod, unit, sumbool
-   map to OCaml's; N, Z, positive, nat stay Coq's inductive types. *)
-From Coq Require Import Extraction ExtrOcamlBasic.
+   map to OCaml's; N, Z, positive, nat stay Coq's inductive types.
+   One Extract Constant: Coq's List.rev is the quadratic textbook definition (rev l ++ [x]); it is
+   replaced by OCaml's List.rev (same function, linear). Nothing else is replaced. *)
+From Coq Require Import Extraction ExtrOcamlBasic List.
 From Klog Require Import Model.Dispatch.
+Extract Constant rev => "List.rev".
 Extraction "model.ml" dispatch.
